@@ -91,8 +91,12 @@ def run_case(case):
             if tpl:
                 tpl.cleanup()
             tpl = Template(a)
-            for ioc in ([None, "1", "3"] if tier == "quick" else [None, "1", "3", "8", "128"]):
-                args = list(base_args) + (["--test-io-cache", ioc] if ioc else [])
+            combos = [(ioc, base_args) for ioc in ([None, "1", "3"] if tier == "quick" else [None, "1", "3", "8", "128"])]
+            if cmdname == "scrub":
+                # a small periodic scrub: few stripes selected, and every one of them will hit a fault
+                combos += [(ioc, ["-p", "1", "-o", "0"]) for ioc in ([rng.choice([None, "1"])] if tier == "quick" else [None, "1"])]
+            for ioc, bargs in combos:
+                args = list(bargs) + (["--test-io-cache", ioc] if ioc else [])
                 tpl.restore()
                 rt = a.cmd(cmdname, *args, variant=variant, shim={})
                 if rt.rc != 0 and phase != "scrub-unsynced":
@@ -117,6 +121,18 @@ def run_case(case):
                         targets.append(k)
                 if not targets:
                     continue
+                all_targets = list(targets)
+
+                def target_pos(t):
+                    if t[0] == "parity":
+                        return t[2] // bs
+                    for d in a.disks:
+                        dd = os.fsencode(a.ddir(d)) + b"/"
+                        if t[1].startswith(dd):
+                            for f in ctwin.files:
+                                if ctwin.disk_name(f.disk) == a.disk_names[d].encode() and f.sub == t[1][len(dd):] and t[2] // bs < len(f.blocks):
+                                    return f.blocks[t[2] // bs][0]
+                    return None
                 depth = int(ioc) if ioc else 8
                 if tier == "quick" and len(targets) > 14:
                     # always: first, middle, last and the last io-cache-depth stripes
@@ -132,6 +148,22 @@ def run_case(case):
                 for _ in range(2 if tier == "quick" else 8):
                     if len(targets) >= 3:
                         plans.append(rng.sample(targets, rng.randint(2, 3)))
+                if cmdname == "scrub":
+                    # no selected stripe stays healthy: one fault (data read or parity read) in EVERY stripe the run touches
+                    by_pos = {}
+                    for t in all_targets:
+                        if t[3] == "read":
+                            pp = target_pos(t)
+                            if pp is not None:
+                                by_pos.setdefault(pp, []).append(t)
+                    if by_pos and len(by_pos) <= 90:
+                        if bargs != base_args:
+                            plans = []
+                        for _ in range(1 if tier == "quick" and bargs == base_args else 2):
+                            plans.append([rng.choice(v) for _p, v in sorted(by_pos.items())])
+                            res["counters"]["scrub_runs_with_every_selected_stripe_failing"] = res["counters"].get("scrub_runs_with_every_selected_stripe_failing", 0) + 1
+                    elif bargs != base_args:
+                        plans = []
                 for tl in plans:
                     errno = "EIO"
                     if all(t[3] == "write" for t in tl) and rng.random() < 0.4:
@@ -156,8 +188,8 @@ def run_case(case):
                     # which stripes did the faults hit?
                     hit = {}
                     kinds = set()
-                    for t in tl:
-                        fired = [e for e in inj if e.path == t[1] and e.op == t[3]]
+                    for ti, t in enumerate(tl):
+                        fired = [e for e in inj if e.rule == ti and e.path == t[1] and e.op == t[3]]
                         if not fired:
                             continue
                         if t[0] == "parity":
